@@ -407,11 +407,12 @@ Ev(e, s) ==
                LET v == ValOf(acc.doc, c)
                    A == Ev(e.r.r.l, [acc EXCEPT !.ctx = <<c>>])
                    B == Ev(e.r.r.r, [A EXCEPT !.ctx = <<c>>]) IN
-               IF ~Ok(A) THEN A ELSE IF ~Ok(B) THEN B
+               IF v.k \notin {"seq", "null"} THEN Fail(acc, "err")          \* only sequences can be sliced (a map or a scalar: an error, before the bounds are looked at)
+               ELSE IF ~Ok(A) THEN A ELSE IF ~Ok(B) THEN B
                ELSE IF Len(A.ctx) # 1 \/ Len(B.ctx) # 1 THEN Fail(acc, "err")
                ELSE LET a == ValOf(A.doc, A.ctx[1])  b == ValOf(B.doc, B.ctx[1]) IN
                     IF ~(a.k = "num" /\ a.int /\ b.k = "num" /\ b.int) THEN Fail(acc, "unspec")
-                    ELSE IF v.k # "seq" THEN Fail(acc, "unspec")          \* slicing raw content of non-sequences
+                    ELSE IF v.k # "seq" THEN Fail(acc, "unspec")          \* the slice of null
                     ELSE LET r == SliceSeq(v, a.n, b.n) IN
                          IF ~r.ok THEN Fail(acc, "unspec") ELSE Emit([acc EXCEPT !.doc = B.doc], <<Det(r.v)>>)))
          ELSE
